@@ -664,6 +664,15 @@ impl<P: consensus::Parameters> DeferredPcztBuilder<P> {
             !builder.spends().is_empty()
                 || !builder.outputs().is_empty()
                 || !builder.changes().is_empty()
+                // A bundle that is required even when empty is paid for by `get_fee` (as
+                // dummy actions), so it must be emitted.
+                || matches!(
+                    builder.bundle_type(),
+                    orchard::builder::BundleType::Transactional {
+                        bundle_required: true,
+                        ..
+                    }
+                )
         }
 
         let fee = self.get_fee(fee_rule).map_err(Error::Fee)?;
